@@ -34,6 +34,21 @@ class SymNS:
         self.inputs[name] = t
         return t
 
+    def take(self, t, axis, i):
+        """t[..., i, ...] for a concrete int i"""
+        n = len(G.PRIM_LOG)
+        ix = [slice(None)] * t.ndim
+        ix[axis] = int(i)
+        r = G.getitem(t, tuple(ix))
+        del G.PRIM_LOG[n:]
+        return r
+
+    def stack(self, ts, axis=0):
+        n = len(G.PRIM_LOG)
+        r = G.stack(ts, axis)
+        del G.PRIM_LOG[n:]
+        return r
+
     def gather(self, t, axis, idx):
         n = len(G.PRIM_LOG)
         ix = [slice(None)] * t.ndim
@@ -155,6 +170,12 @@ class NumNS:
 
     def gather(self, t, axis, idx):
         return np.take(t, idx, axis=axis)
+
+    def take(self, t, axis, i):
+        return np.take(t, int(i), axis=axis)
+
+    def stack(self, ts, axis=0):
+        return np.stack(ts, axis=axis)
 
     def einsum(self, sub, *ops):
         return np.einsum(sub, *ops)
